@@ -118,6 +118,12 @@ def cases(rng, tier):
 			corpus.append(('server', b'POST / HTTP/1.1\r\nHost: h\r\nTransfer-Encoding: ' + name + b'\r\nContent-Length: %d\r\n\r\n' % len(coded) + coded))
 			h = len(coded) // 2
 			corpus.append(('server', b'POST / HTTP/1.1\r\nHost: h\r\nContent-Encoding: ' + name + b'\r\nTransfer-Encoding: chunked\r\n\r\n%x\r\n' % h + coded[:h] + b'\r\n%x\r\n' % (len(coded) - h) + coded[h:] + b'\r\n0\r\n\r\n'))
+	# a long Content-Length body cut far inside (beyond the block sizes 4096 / 8192), both sides
+	big = (bytes(range(256)) * 40)[:10000]
+	for side, head in (('server', b'POST / HTTP/1.1\r\nHost: h\r\nContent-Length: 10000\r\n\r\n'), ('client', b'HTTP/1.1 200 OK\r\nContent-Length: 10000\r\n\r\n')):
+		s = head + big + (b'GET / HTTP/1.1\r\nHost: h\r\nContent-Length: 0\r\n\r\n' if side == 'server' else b'')
+		n0 = len(head)
+		yield ('s', side, s, ((), (n0 + 6000,), (n0 + 4097,), (n0 + 4096,), (n0 + 5000, n0 + 9000), (n0, n0 + 8193), (n0 + 1, n0 + 4098, n0 + 8195)))
 	for side, s in corpus:
 		yield ('s', side, s, tuple(tuple(c) for c in fragmentations(rng, len(s), k)))
 	# exhaustive cuts for short streams
